@@ -339,6 +339,7 @@ def viskey(F, rep):
                                 "`module.segments.join(\"_\")` (%s): for some import spellings the lookup misses, the "
                                 "check returns early and a private item is accepted" % prov["calls"],
                                 file=v.file, line=t.get("ln"), fn=v.path))
+    regall(F, rep)
     # registration sites: callers of check_with_imports build (name, ast) pairs
     sites = 0
     for p, f in sorted(F.fns.items()):
@@ -399,6 +400,63 @@ def viskey(F, rep):
                                                                              detail.get("calls")),
                             file=f.file, line=f.line, fn=p))
     rep.floor("VISKEY", "front ends calling check_with_imports", sites, 3)
+
+
+SELECTIVE_ADAPTORS = ("Iterator::filter", "Iterator::filter_map", "Iterator::take_while", "Iterator::skip_while",
+                      "Iterator::take", "Iterator::skip", "Iterator::step_by", "Iterator::find", "Iterator::find_map",
+                      "Iterator::map_while", "Iterator::flat_map", "Iterator::flatten")
+
+
+def regall(F, rep):
+    """REGALL — check_with_imports records the export list of EVERY dependency module, including an empty one: the
+    visibility check treats a module without a record as unknown and skips itself, so a module that exports nothing
+    would have all its private items importable."""
+    from engines import postdominators, blocks_dominated_by_edge
+    f = F.one_fn("TypeChecker::check_with_imports")
+    if not rep.anchor("REGALL", "TypeChecker::check_with_imports", f):
+        return
+    ins = [(bi, t) for bi, t in f.calls() if (callee_generic(t) or "").endswith("::insert") and
+           "ExportedSymbol" in t["f"].get("inst", "")]
+    bulk = [(bi, t) for bi, t in f.calls() if ((callee_generic(t) or "").endswith("Iterator::collect") or
+                                              (callee_generic(t) or "").endswith("Extend::extend")) and
+            "ExportedSymbol" in t["f"].get("inst", "")]
+    if not rep.anchor("REGALL", "registration of dependency exports in check_with_imports", ins or bulk):
+        return
+    ok, why = True, ""
+    if ins:
+        pdom = postdominators(f)
+        for bi, t in ins:
+            for sb, blk in enumerate(f.blocks):
+                tt = blk["term"]
+                if tt["t"] != "switch" or bi in pdom.get(sb, set()):
+                    continue
+                if not any(bi in blocks_dominated_by_edge(f, sb, s2) for s2 in f.succs()[sb]):
+                    continue
+                # the only admissible guard is the loop condition: a switch on the discriminant of Iterator::next()
+                pl = op_place(tt["on"])
+                d = f.single_def(pl["l"]) if pl is not None and not pl["p"] else None
+                loop_cond = False
+                if d and d[2] == "assign" and d[3]["r"] == "use" and "c" in d[3]["o"]:
+                    continue        # branch on a compile-time constant (macro expansion): decided statically
+                if d and d[2] == "assign" and d[3]["r"] == "discr":
+                    src = f.single_def(d[3]["p"]["l"])
+                    loop_cond = bool(src and src[2] == "call" and (callee_generic(src[3]) or "").endswith("Iterator::next"))
+                if not loop_cond:
+                    ok = False
+                    why = "the insert is conditional (guard at line %s)" % tt.get("ln")
+    else:
+        sel = sorted({(callee_generic(t) or "").split("::")[-1] for _, t in f.calls()
+                      if any((callee_generic(t) or "").endswith(a) for a in SELECTIVE_ADAPTORS)})
+        if sel:
+            ok = False
+            why = "the records are collected through a selective iterator adaptor (%s)" % ", ".join(sel)
+    rep.oblige("REGALL", "check_with_imports", ok, sample={"rule": "REGALL", "direct_inserts": len(ins),
+                                                           "bulk_collects": len(bulk), "holds": ok, "why": why})
+    if not ok:
+        rep.add(Finding("REGALL", "REGALL|check_with_imports",
+                        "check_with_imports does not record the exports of every dependency: %s. A module without a "
+                        "record is treated as unknown by validate_import_visibility, which then skips the check — "
+                        "private items of such a module become importable" % why, file=f.file, line=f.line, fn=f.path))
 
 
 def worklist(F, rep):
